@@ -24,6 +24,11 @@ type Case struct {
 	MemLimit uint64   `json:"mem_limit"`
 	Steps    []Step   `json:"steps"`
 	Crash    bool     `json:"crash,omitempty"`
+	// replay of the crash leg
+	TraceFile string `json:"trace_file,omitempty"`
+	TraceRoot string `json:"trace_root,omitempty"`
+	TraceAck  string `json:"trace_ack,omitempty"`
+	Only      int    `json:"only,omitempty"`
 }
 
 func Gen() *rapid.Generator[Case] {
@@ -35,7 +40,11 @@ func Gen() *rapid.Generator[Case] {
 		}
 		c.Keys = append(c.Keys, []byte{}, []byte{0xff, 0xfe, 0x80}, []byte("h\xc3\x28llo"))
 		c.MemLimit = rapid.SampledFrom([]uint64{16, 256, 1 << 20}).Draw(t, "memlimit")
+		c.Crash = rapid.IntRange(0, 14).Draw(t, "crashleg") == 0
 		n := rapid.IntRange(1, 40).Draw(t, "n")
+		if c.Crash {
+			n = rapid.IntRange(1, 16).Draw(t, "ncrash")
+		}
 		for i := 0; i < n; i++ {
 			st := Step{Key: rapid.IntRange(-1, len(c.Keys)-1).Draw(t, "key")}
 			k := rapid.IntRange(0, 19).Draw(t, "opkind")
@@ -68,6 +77,9 @@ func Gen() *rapid.Generator[Case] {
 }
 
 func Shrink(c Case) []Case {
+	if c.TraceFile != "" {
+		return nil
+	}
 	var out []Case
 	for _, st := range h.ShrinkList(c.Steps) {
 		cp := c
